@@ -191,6 +191,17 @@ def audit(theorems, imports):
     return res, problems
 
 
+def leanchecker(modules):
+    """thorough tier: re-check the compiled proof modules with Lean's independent .olean checker"""
+    if not modules:
+        return True, ''
+    try:
+        rc, out = _run(['lake', 'env', 'leanchecker'] + list(modules), cwd=LEAN)
+    except Exception as e:      # a missing tool is reported, not hidden
+        return False, 'leanchecker could not be run: %r' % (e,)
+    return rc == 0, out[-400:]
+
+
 # ----------------------------------------------------------------------------- driver
 
 class Driver:
